@@ -13,99 +13,18 @@ import (
 	"io"
 	"mime/quotedprintable"
 	"net"
-	"net/http"
-	"net/http/httptest"
 	"os"
 	"path/filepath"
 	"strings"
-	"sync"
 	"time"
 
 	"raven/internal/blobstorage"
 	"raven/internal/delivery/storage"
+	"raven/verifh/fakes3"
 	"raven/verifh/hx"
 	"raven/verifh/mimegen"
 	"raven/verifh/world"
 )
-
-// ---------- fake object store ----------
-
-type fakeS3 struct {
-	mu      sync.Mutex
-	objs    map[string][]byte
-	log     []string
-	script  []string // per request: ok | 500 | timeout | drop | missing ; consumed in order, then ok
-	srv     *httptest.Server
-	getFail map[string]bool // keys whose GET/HEAD was failed by the script
-}
-
-func newFakeS3() *fakeS3 {
-	f := &fakeS3{objs: map[string][]byte{}, getFail: map[string]bool{}}
-	f.srv = httptest.NewServer(http.HandlerFunc(f.handle))
-	return f
-}
-
-func (f *fakeS3) handle(w http.ResponseWriter, r *http.Request) {
-	body, _ := io.ReadAll(r.Body)
-	f.mu.Lock()
-	act := "ok"
-	isObj := strings.Count(strings.Trim(r.URL.Path, "/"), "/") >= 1
-	if isObj && len(f.script) > 0 {
-		act = f.script[0]
-		f.script = f.script[1:]
-	}
-	f.log = append(f.log, r.Method+" "+r.URL.Path+" -> "+act)
-	key := r.URL.Path
-	if act != "ok" && (r.Method == "GET" || r.Method == "HEAD") {
-		f.getFail[key] = true
-	}
-	f.mu.Unlock()
-	switch act {
-	case "500":
-		w.WriteHeader(500)
-		return
-	case "timeout":
-		time.Sleep(1500 * time.Millisecond)
-		w.WriteHeader(500)
-		return
-	case "drop":
-		if hj, ok := w.(http.Hijacker); ok {
-			c, _, _ := hj.Hijack()
-			c.Close()
-			return
-		}
-	case "missing":
-		if r.Method == "GET" || r.Method == "HEAD" {
-			w.WriteHeader(404)
-			return
-		}
-	}
-	f.mu.Lock()
-	defer f.mu.Unlock()
-	switch r.Method {
-	case "PUT":
-		if isObj {
-			f.objs[key] = body
-		}
-		w.WriteHeader(200)
-	case "HEAD":
-		if _, ok := f.objs[key]; ok {
-			w.WriteHeader(200)
-		} else {
-			w.WriteHeader(404)
-		}
-	case "GET":
-		if b, ok := f.objs[key]; ok {
-			w.Header().Set("Content-Length", fmt.Sprint(len(b)))
-			w.WriteHeader(200)
-			w.Write(b)
-		} else {
-			w.WriteHeader(404)
-		}
-	default:
-		w.WriteHeader(200)
-	}
-}
 
 var _ = net.Dial
 
@@ -224,10 +143,10 @@ func localBlobStoreRefuses(rep *hx.Report, withS3 bool) {
 	defer w.Close()
 	if withS3 {
 		// the object store is up and takes every object; only the row that records where the object went is refused
-		f := newFakeS3()
-		defer f.srv.Close()
+		f := fakes3.New()
+		defer f.Srv.Close()
 		mkS3 := func() *blobstorage.S3BlobStorage {
-			s, err := blobstorage.NewS3BlobStorage(blobstorage.Config{Enabled: true, Endpoint: f.srv.URL, Region: "us-east-1", Bucket: "b", AccessKey: "k", SecretKey: "s", Timeout: 1})
+			s, err := blobstorage.NewS3BlobStorage(blobstorage.Config{Enabled: true, Endpoint: f.Srv.URL, Region: "us-east-1", Bucket: "b", AccessKey: "k", SecretKey: "s", Timeout: 1})
 			if err != nil {
 				return nil
 			}
@@ -319,10 +238,10 @@ func runSeq(rep *hx.Report, rng *hx.Rng, o *hx.Opts, dS3, iS3 bool, faultAt stri
 		return
 	}
 	defer w.Close()
-	f := newFakeS3()
-	defer f.srv.Close()
+	f := fakes3.New()
+	defer f.Srv.Close()
 	mk := func() *blobstorage.S3BlobStorage {
-		s, err := blobstorage.NewS3BlobStorage(blobstorage.Config{Enabled: true, Endpoint: f.srv.URL, Region: "us-east-1", Bucket: "b", AccessKey: "k", SecretKey: "s", Timeout: 1})
+		s, err := blobstorage.NewS3BlobStorage(blobstorage.Config{Enabled: true, Endpoint: f.Srv.URL, Region: "us-east-1", Bucket: "b", AccessKey: "k", SecretKey: "s", Timeout: 1})
 		if err != nil {
 			rep.Violate("broken-correspondence", "s3", err.Error(), nil)
 			return nil
@@ -373,14 +292,14 @@ func runSeq(rep *hx.Report, rng *hx.Rng, o *hx.Opts, dS3, iS3 bool, faultAt stri
 			}
 		}
 		if faultAt == "store" && step == faultStep {
-			f.mu.Lock()
-			f.script = append([]string(nil), faults...)
-			f.mu.Unlock()
+			f.Mu.Lock()
+			f.Script = append([]string(nil), faults...)
+			f.Mu.Unlock()
 		}
 		_, data := w.Deliver("a@example.org", []string{st.user}, msg)
-		f.mu.Lock()
-		f.script = nil
-		f.mu.Unlock()
+		f.Mu.Lock()
+		f.Script = nil
+		f.Mu.Unlock()
 		if len(data) != 1 || !strings.HasPrefix(data[0], "250") {
 			// a failed operation is an acceptable outcome of a store fault — but then nothing may be listed
 			rep.Hit("store:refused")
@@ -424,9 +343,9 @@ func runSeq(rep *hx.Report, rng *hx.Rng, o *hx.Opts, dS3, iS3 bool, faultAt stri
 		}
 		// ---- read everything back ----
 		if faultAt == "read" && step == faultStep {
-			f.mu.Lock()
-			f.script = append([]string(nil), faults...)
-			f.mu.Unlock()
+			f.Mu.Lock()
+			f.Script = append([]string(nil), faults...)
+			f.Mu.Unlock()
 		}
 		for _, s := range all {
 			if s.seq == 0 {
@@ -448,9 +367,9 @@ func runSeq(rep *hx.Report, rng *hx.Rng, o *hx.Opts, dS3, iS3 bool, faultAt stri
 					rep.Hit("read:own-octets")
 					continue
 				}
-				f.mu.Lock()
-				readFaulted := len(f.getFail) > 0
-				f.mu.Unlock()
+				f.Mu.Lock()
+				readFaulted := len(f.GetFail) > 0
+				f.Mu.Unlock()
 				what := fmt.Sprintf("%s: part %d of message %s (%s, %d octets) reads back %d octets (NIL=%v) that are not its own", desc, k+1, s.tok, p.cte, len(p.content), len(got), !found)
 				switch {
 				case readFaulted || (dS3 && !iS3):
@@ -474,9 +393,9 @@ func runSeq(rep *hx.Report, rng *hx.Rng, o *hx.Opts, dS3, iS3 bool, faultAt stri
 				if p.cte == "base64" || strings.Contains(whole, enc[:min(len(enc), 40)]) {
 					continue
 				}
-				f.mu.Lock()
-				readFaulted := len(f.getFail) > 0
-				f.mu.Unlock()
+				f.Mu.Lock()
+				readFaulted := len(f.GetFail) > 0
+				f.Mu.Unlock()
 				what := fmt.Sprintf("%s: BODY[] of message %s does not contain the text of its part %d (%s, %d octets; BODY[] has %d octets)", desc, s.tok, k+1, p.cte, len(p.content), len(whole))
 				switch {
 				case readFaulted || (dS3 && !iS3):
@@ -488,10 +407,10 @@ func runSeq(rep *hx.Report, rng *hx.Rng, o *hx.Opts, dS3, iS3 bool, faultAt stri
 			}
 			c.Close()
 		}
-		f.mu.Lock()
-		f.script = nil
-		f.getFail = map[string]bool{}
-		f.mu.Unlock()
+		f.Mu.Lock()
+		f.Script = nil
+		f.GetFail = map[string]bool{}
+		f.Mu.Unlock()
 	}
 	rep.Case(desc+fmt.Sprint(len(all)), len(blobParts) > 0)
 	rep.Hit(fmt.Sprintf("config:d=%v,i=%v", dS3, iS3))
